@@ -55,7 +55,15 @@ def _tag_values(ops):
                         yield v
 
 
+def _all_strings(ops):
+    for op in ops:
+        yield from _strings(op)
+
+
 PREDICATES = {
+    # csv dialect with lineterminator="\n" and a string containing a bare CR
+    "csv_lf_dialect_with_cr": lambda cfg, ops: cfg.get("dialect") == "lf"
+    and any("\r" in s for s in _all_strings(ops)),
     # a measurement name or measurement filter equal to '' occurs
     "empty_measurement": lambda cfg, ops: any(
         m == "" for m in _measurements(ops)),
